@@ -159,7 +159,7 @@ def distinct_ts(setup, threads):
     return [stamp(op) for op in setup], [[stamp(op) for op in ops] for ops in threads]
 
 
-def extra_lines(rng, tier, snap_flags="drain,mode=O,nomodel"):
+def extra_lines(rng, tier, snap_flags="drain,mode=O"):
     """Programs built around one order: a matcher and an amender / canceller (sometimes two) meet on an Iceberg, Reserve or
     Standard maker, so that the windows between a lookup and the removal, and between a removal and the re-insertion,
     are hit in every run rather than by luck.  [snap_flags]: the flags of the snapshot-reader programs (see below)."""
